@@ -188,6 +188,7 @@ def _make(path, rel, tree):
         elif v == F:
             with open(p, "wb") as f:
                 f.write(content_of(r))
+            os.utime(p, (1600000000, 1600000000))     # a tree unpacked from an archive: every file carries the same time stamp
         elif v == P:
             os.mkfifo(p)
         else:
